@@ -19,7 +19,7 @@ def run(ctx):
            scenarios.fam_close(rng, 0) + scenarios.fam_auto(rng, 40 if th else 6, th) +
            scenarios.fam_stall(rng, [1, 64] if not th else [1, 5, 64, 66]) + scenarios.fam_links(rng, False)[:3] +
            scenarios.fam_events_gated(rng, 20 if th else 6) + scenarios.fam_events_server(rng, 12 if th else 4) +
-           scenarios.fam_race(rng, 12 if th else 3))
+           scenarios.fam_race(rng, 12 if th else 3) + scenarios.fam_udp(rng, 8 if th else 2))
     scs += _node.generated(ctx, "events") + _node.generated(ctx, "close")
     runs = _node.play(ctx, scs, binary=race, timeout=180, env_extra={"GORACE": "exitcode=0 halt_on_error=0 history_size=3"},
                       workers=max(2, vf.NCPU // 2))
